@@ -36,6 +36,11 @@ pub proof fn lemma_perm_swap(p: Seq<int>, n: int, a: int, b: int) requires is_pe
         if pi < pj { assert(p[pi] != p[pj]); } else { assert(pj < pi); assert(p[pj] != p[pi]); }
     }
 }
+/// k is a uniform draw from lo..=hi: a fresh draw of the trusted generator, or the only value of a one-point range
+pub open spec fn du_drawn(lo: i64, hi: i64, k: int) -> bool { lo <= k <= hi && ((lo == hi && k == lo) || crate::alea::alea_uniform(lo, hi, k as i64)) }
+pub open spec fn is_du_value(lo: i64, hi: i64, x: f64) -> bool { exists|k: int| #[trigger] du_drawn(lo, hi, k) && x == f_of_int(k) }
+/// x is the datum at a uniformly drawn position
+pub open spec fn is_pick(d: Seq<f64>, x: f64) -> bool { exists|k: int| #[trigger] du_drawn(0, (d.len() - 1) as i64, k) && x == d[k] }
 /// one common permutation applied to both arrays (property C19, "paired shuffle")
 pub open spec fn paired(a1: Seq<f64>, a2: Seq<f64>, s1: Seq<f64>, s2: Seq<f64>, p: Seq<int>) -> bool {
     &&& is_perm(p, a1.len() as int) && s1.len() == a1.len() && s2.len() == a1.len() && a2.len() == a1.len()
@@ -48,7 +53,7 @@ du_new = Fn(DU + '{impl DiscreteUniform}::new', ret='r', valid='lower <= upper',
             ensures=['C19.du.new.valid:: lower <= upper', 'C19.du.new.fields:: r.lower == lower && r.upper == upper'])
 du_sample = Fn(DU + '{impl Distribution for DiscreteUniform}::sample', ret='r', inherent=True,
                requires=['C19.du.inv:: self.lower <= self.upper'],
-               ensures=['C19.du.sample.range:: exists|k: int| self.lower <= k <= self.upper && r == f_of_int(k)'])
+               ensures=['C19.du.sample.range:: exists|k: int| self.lower <= k <= self.upper && r == #[trigger] f_of_int(k) && du_drawn(self.lower, self.upper, k)'])
 
 MACH = 'data@.len() < 0x3fff_ffff'
 jackknife = Fn(R + 'jackknife', ret='r',
@@ -77,8 +82,34 @@ shuffle_two = Fn(R + 'shuffle_two', ret='r', valid='arr1@.len() == arr2@.len() &
                         ('shuf1.swap(', 'before', 'proof { lemma_perm_swap(perm, arr1@.len() as int, f_to_int(a), f_to_int(b)); perm = swap_seq(perm, f_to_int(a), f_to_int(b)); }'),
                         ('(shuf1, shuf2)', 'replace', '({ let r_ = (shuf1, shuf2); proof { assert(paired(arr1@, arr2@, r_.0@, r_.1@, perm)); } r_ })')])
 
+DIST = 'distributions::'
+sample_n = Fn(DIST + '{trait Distribution1D: Distribution<Output = f64>}::sample_n', ret='r', as_impl='impl DiscreteUniform',
+              requires=['C19.du.inv:: self.lower <= self.upper'],
+              ensures=['C19.du.sample_n.len:: r.v@.len() == n',
+                       'C19.du.sample_n.each:: forall|i: int| 0 <= i < n ==> is_du_value(self.lower, self.upper, #[trigger] r.v@[i])'],
+              rewrites=[('(0..n).map(', 'Vector { v: (0..n).map(', 'R26: `ITER.collect()` into a Vector is `Vector { v: ITER.collect::<Vec<f64>>() }` (fingerprint-checked)'),
+                        ('.collect()', '.collect::<Vec<f64>>() }', 'R26 (second half)')],
+              closures={1: {'params': '_w: usize', 'ret': 'o: f64', 'ensures': ['is_du_value(self.lower, self.upper, o)']}})
+bootstrap = Fn(R + 'bootstrap', ret='r', float_casts=(2,),
+               requires=['C19.bootstrap.nonempty:: data@.len() >= 1', 'C19.machine:: ' + MACH],
+               ensures=['C19.bootstrap.count:: r@.len() == n_bootstrap',
+                        'C19.bootstrap.len:: forall|b: int| 0 <= b < n_bootstrap ==> (#[trigger] r@[b])@.len() == data@.len()',
+                        'C19.bootstrap.drawn:: forall|b: int, i: int| 0 <= b < n_bootstrap && 0 <= i < data@.len() ==> '
+                        'is_pick(data@, #[trigger] r@[b]@[i])'],
+               rewrites=[('idxs.into_iter()', 'idxs.v.into_iter()', 'R35: `into_iter()` on a Vector is `self.v.into_iter()` by the one-line IntoIterator impl (fingerprint-checked)'),
+                         ('for _ in', 'for _b in', 'R14: wildcard loop pattern given a name')],
+               closures={1: {'params': 'i: f64', 'ret': 'o: f64',
+                             'requires': ['is_du_value(0, (data@.len() - 1) as i64, i)', 'data@.len() >= 1 && data@.len() < 0x3fff_ffff'],
+                             'ensures': ['is_pick(data@, o)']}},
+               loops={1: {'invariant': ['data@.len() >= 1 && data@.len() < 0x3fff_ffff', 'resamp_gen.lower == 0 && resamp_gen.upper == data@.len() - 1', 'resamples@.len() == _b',
+                                        'C19.bootstrap.len.inv:: forall|b: int| 0 <= b < _b ==> (#[trigger] resamples@[b])@.len() == data@.len()',
+                                        'C19.bootstrap.drawn.inv:: forall|b: int, i: int| 0 <= b < _b && 0 <= i < data@.len() ==> '
+                                        'is_pick(data@, #[trigger] resamples@[b]@[i])']}})
+
 UNITS = [
-    Unit('C19_resample', 'C19', [du_new, du_sample, jackknife, shuffle, shuffle_two], types=[du_struct], spec=SPEC, preludes=PRE, broadcast=BC,
+    Unit('C19_resample', 'C19', [du_new, du_sample, sample_n, bootstrap, jackknife, shuffle, shuffle_two], types=[du_struct, 'linalg::array::vec::{struct Vector}'],
+         fingerprints=[('linalg::array::vec::{impl FromIterator<f64> for Vector}::from_iter', '{ Self { v: Vec::from_iter(iter) } }'),
+                       ('linalg::array::vec::{impl IntoIterator for Vector}::into_iter', '{ self.v.into_iter() }')], spec=SPEC, preludes=PRE, broadcast=BC,
          notes='jackknife = the n leave-one-out vectors in order; shuffle keeps the multiset; shuffle_two applies one common permutation '
                '(ghost witness); index draws are in range from length 1 upward'),
 ]
